@@ -62,6 +62,17 @@ def _entry_rules(rep: Report, cls, cb_attrs: dict, flag: str = "self.is_stopped"
         rep.ob("R3-guard", fl, "fail(): nothing stops the observer before its is_stopped test", bool(tests) and not early,
                "fail() marks the observer stopped (dispose() / is_stopped = True) before testing is_stopped: it then always reports "
                "'already stopped', Observable.subscribe re-raises, and a subscribe-time exception is never delivered as on_error")
+        # fail() answers True exactly when it delivered the exception (Observable.subscribe re-raises on False)
+        from ..rules import has_guard as _hg
+        for r_ in [s for s in sites(fl) if isinstance(s.node, ast.Return) and isinstance(s.node.value, ast.Constant)]:
+            stopped = _hg(r_.ctx, flag, True)
+            live = _hg(r_.ctx, flag, False)
+            want = False if stopped else True if live else None
+            rep.ob("R3-guard", fl, f"fail(): `return {r_.node.value.value}` on the {'stopped' if stopped else 'live' if live else '?'} path",
+                   want is not None and r_.node.value.value is want,
+                   "fail() answers the wrong way round: True means 'delivered as on_error', False 'the observer had already stopped' — "
+                   "Observable.subscribe re-raises on False, so a delivered subscribe-time exception would also propagate to the caller "
+                   "(or an undelivered one would be swallowed)")
     d = cls.child("dispose")
     rep.require(d is not None, f"{cls.ref}.dispose")
     ok = any(assigned_const(s, True) and not s.ctx.branch and not s.ctx.tries for s in assigns_to(d, flag))
